@@ -1227,22 +1227,32 @@ func c15Serialise(c *an.Ctx) {
 			nm, lk := args[0], args[1]
 			ok, why := false, "the name is not linkNamePrefix(slot) + label"
 			var slot ssa.Value
+			pairs := [][2]ssa.Value{{nil, lk}}
 			if b, isB := nm.(*ssa.BinOp); isB && b.Op == token.ADD {
 				if pc, isP := an.IsCallTo(b.X, c15M("linkNamePrefix")); isP && an.Recv(pc) == ssa.Value(recv) {
 					slot = an.Args(pc)[0]
 					why = "the prefix is not that of the slot tested with childer.has on this path"
 					if c15GuardedByHas(p.Methods(c15H, "Shard"), f, a, slot, 0) {
 						why = "the label is neither the key of the child whose Link() is written nor the written link's own name cut at maxpadlen"
-						// label
-						if fl, base := an.LoadedField(b.Y); fl == fKey {
-							if lc, isL := an.IsCallTo(lk, an.M(c15H, "Shard", "Link")); isL && an.SameObj(an.Recv(lc), base) {
-								ok = true
+						// label and link may be carried to the call in a small local
+						// struct assigned on each branch: check every (label, link) pair
+						pairs = c15LabelLinkPairs(b.Y, lk)
+						ok = len(pairs) > 0
+						for _, pr := range pairs {
+							good := false
+							if fl, base := an.LoadedField(pr[0]); fl == fKey {
+								if lc, isL := an.IsCallTo(pr[1], an.M(c15H, "Shard", "Link")); isL && an.SameObj(an.Recv(lc), base) {
+									good = true
+								}
+							} else if sl, isS := pr[0].(*ssa.Slice); isS && sl.Low != nil && sl.High == nil {
+								flN, baseN := an.LoadedField(sl.X)
+								flL, _ := an.LoadedField(sl.Low)
+								if flN != nil && flN.Name() == "Name" && an.SameObj(baseN, pr[1]) && flL == fMax {
+									good = true
+								}
 							}
-						} else if sl, isS := b.Y.(*ssa.Slice); isS && sl.Low != nil && sl.High == nil {
-							flN, baseN := an.LoadedField(sl.X)
-							flL, _ := an.LoadedField(sl.Low)
-							if flN != nil && flN.Name() == "Name" && an.SameObj(baseN, lk) && flL == fMax {
-								ok = true
+							if !good {
+								ok = false
 							}
 						}
 					}
@@ -1252,23 +1262,26 @@ func c15Serialise(c *an.Ctx) {
 				"child written under the prefix of its own slot and its own label",
 				"Shard."+f.Name()+" writes a child link whose name is not built as linkNamePrefix(<slot tested with has()>)+<label of that very child>: "+why+". The i-th set bit of the bitfield is matched with the i-th link after sorting by name, so a link carrying a stale or foreign prefix is attributed to the wrong slot after a reload (names no longer resolve, or resolve to another entry)")
 			// the written child/link is taken at the dense slice counter
-			var at ssa.Value
-			if lc, isL := an.IsCallTo(lk, an.M(c15H, "Shard", "Link")); isL {
-				if cc, isC := an.IsCallTo(an.Recv(lc), c15M("child")); isC {
-					at = an.Args(cc)[0]
-				}
-			} else if cc, isC := an.IsCallTo(lk, c15M("link")); isC {
-				at = an.Args(cc)[0]
-			}
 			if slot == nil {
 				continue // reported above
 			}
-			okAt, whyAt := false, "the link written is not childer.child(i).Link() / childer.link(i)"
-			if at != nil {
-				whyAt = "the slice position is the table index itself"
-				if at != slot {
-					whyAt = "the slice counter is not advanced exactly on the has()==true paths"
-					okAt = c15Dense(p.Methods(c15H, "Shard"), f, at, slot, 0)
+			okAt, whyAt := len(pairs) > 0, ""
+			for _, pr := range pairs {
+				var at ssa.Value
+				if lc, isL := an.IsCallTo(pr[1], an.M(c15H, "Shard", "Link")); isL {
+					if cc, isC := an.IsCallTo(an.Recv(lc), c15M("child")); isC {
+						at = an.Args(cc)[0]
+					}
+				} else if cc, isC := an.IsCallTo(pr[1], c15M("link")); isC {
+					at = an.Args(cc)[0]
+				}
+				switch {
+				case at == nil:
+					okAt, whyAt = false, "the link written is not childer.child(i).Link() / childer.link(i)"
+				case at == slot:
+					okAt, whyAt = false, "the slice position is the table index itself"
+				case !c15Dense(p.Methods(c15H, "Shard"), f, at, slot, 0):
+					okAt, whyAt = false, "the slice counter is not advanced exactly on the has()==true paths"
 				}
 			}
 			c.Check(okAt, "O8", "R-FLOW", name, an.Callee(a).Name+":child-at-dense-slice-counter", a.Pos(),
@@ -1680,4 +1693,76 @@ func c15ResolveRoles(c *an.Ctx) {
 			c15Roles[r.name] = found[0]
 		}
 	}
+}
+
+// c15LabelLinkPairs: the (label, link) value pairs that can reach a call whose
+// two operands are the fields of one small local struct variable (assigned as
+// a whole, from a composite literal, on each branch). For plain operands it is
+// the single pair itself.
+func c15LabelLinkPairs(label, link ssa.Value) [][2]ssa.Value {
+	single := [][2]ssa.Value{{label, link}}
+	fieldOfLocal := func(v ssa.Value) (*ssa.Alloc, int, bool) {
+		u, ok := v.(*ssa.UnOp)
+		if !ok || u.Op != token.MUL {
+			return nil, 0, false
+		}
+		fa, ok := u.X.(*ssa.FieldAddr)
+		if !ok {
+			return nil, 0, false
+		}
+		al, ok := fa.X.(*ssa.Alloc)
+		return al, fa.Field, ok
+	}
+	e1, i1, ok1 := fieldOfLocal(label)
+	e2, i2, ok2 := fieldOfLocal(link)
+	if !ok1 || !ok2 || e1 != e2 || e1.Referrers() == nil {
+		return single
+	}
+	fieldStore := func(al *ssa.Alloc, idx int) []*ssa.Store {
+		var out []*ssa.Store
+		for _, r := range *al.Referrers() {
+			if fa, ok := r.(*ssa.FieldAddr); ok && fa.Field == idx && fa.Referrers() != nil {
+				for _, rr := range *fa.Referrers() {
+					if st, ok := rr.(*ssa.Store); ok && st.Addr == ssa.Value(fa) {
+						out = append(out, st)
+					}
+				}
+			}
+		}
+		return out
+	}
+	var pairs [][2]ssa.Value
+	for _, r := range *e1.Referrers() {
+		st, ok := r.(*ssa.Store)
+		if !ok || st.Addr != ssa.Value(e1) {
+			continue
+		}
+		// whole-struct assignment from a composite literal temp
+		ld, ok := st.Val.(*ssa.UnOp)
+		if !ok || ld.Op != token.MUL {
+			return single
+		}
+		tmp, ok := ld.X.(*ssa.Alloc)
+		if !ok || tmp.Referrers() == nil {
+			return single
+		}
+		ls, ks := fieldStore(tmp, i1), fieldStore(tmp, i2)
+		if len(ls) != 1 || len(ks) != 1 {
+			return single
+		}
+		pairs = append(pairs, [2]ssa.Value{ls[0].Val, ks[0].Val})
+	}
+	// field-wise assignments on the variable itself: pair the stores of one block
+	ls, ks := fieldStore(e1, i1), fieldStore(e1, i2)
+	for _, l := range ls {
+		for _, k := range ks {
+			if l.Block() == k.Block() {
+				pairs = append(pairs, [2]ssa.Value{l.Val, k.Val})
+			}
+		}
+	}
+	if len(pairs) == 0 || len(ls) != len(ks) {
+		return single
+	}
+	return pairs
 }
